@@ -15,6 +15,7 @@ import (
 	"berty.tech/go-orbit-db/stores/documentstore"
 	"berty.tech/go-orbit-db/stores/eventlogstore"
 	"berty.tech/go-orbit-db/stores/kvstore"
+	"berty.tech/go-orbit-db/stores/operation"
 
 	acipfs "berty.tech/go-orbit-db/accesscontroller/ipfs"
 	acsimple "berty.tech/go-orbit-db/accesscontroller/simple"
@@ -370,6 +371,29 @@ func VerifSysMalformed() {
 		return
 	}
 	vstub.WaitIdle()
+	// database B is idle throughout: when the traffic is delivered to database A's
+	// channels only (idleStrict, set below) no store event may name B and B's
+	// replication status must stay untouched
+	idleStrict := false
+	if hb, ok := b.env.Bus.(*vstub.HookBus); ok {
+		idle := func(addr string) {
+			if idleStrict {
+				vstub.Assert(addr != addrB, "C09 an idle database emits no store event because of traffic delivered to another database")
+			}
+		}
+		hb.OnEmit = func(evt interface{}) {
+			switch e := evt.(type) {
+			case stores.EventReplicate:
+				idle(e.Address.String())
+			case stores.EventReplicateProgress:
+				idle(e.Address.String())
+			case stores.EventReplicated:
+				idle(e.Address.String())
+			case stores.EventWrite:
+				idle(e.Address.String())
+			}
+		}
+	}
 	// b is partitioned from a while a writes one entry: b does not hold it yet
 	w.net.Cut(a.id, b.id)
 	first := a.add(addrA, 'a')
@@ -380,7 +404,25 @@ func VerifSysMalformed() {
 
 	var payload []byte
 	var err error
-	switch vstub.NdChoice("payload", 4) {
+	foreignForA := false
+	switch vstub.NdChoice("payload", 5) {
+	case 4:
+		// a VALID entry written for database B (by a writer both databases accept), sent
+		// in a message that names database A
+		lb, lerr := ipfslog.NewLog(a.env.IPFS, a.env.Identity, &ipfslog.LogOptions{ID: addrB, IO: a.env.IO})
+		if lerr != nil {
+			vstub.Fail("sys: NewLog failed")
+			return
+		}
+		data, _ := operation.NewOperation(nil, "ADD", []byte("for-B")).Marshal()
+		fe, aerr := lb.Append(context.Background(), data, nil)
+		if aerr != nil {
+			vstub.Fail("sys: Append failed")
+			return
+		}
+		payload, err = a.o.messageMarshaler.Marshal(&iface.MessageExchangeHeads{Address: addrA, Heads: []*entry.Entry{fe.(*entry.Entry)}})
+		foreignForA = true
+		vstub.Cover("foreign-head-for-A")
 	case 0:
 		payload = vstub.NdBytes("raw", 3)
 		vstub.Cover("raw-bytes")
@@ -428,6 +470,11 @@ func VerifSysMalformed() {
 	}
 	pacing := vstub.NdChoice("pacing", 3)
 	route := vstub.NdChoice("route", 3)
+	if foreignForA && route == 2 {
+		// an entry written for B delivered on B's own topic is honest traffic for B: not this case
+		return
+	}
+	idleStrict = foreignForA
 	send := func(data []byte, honest bool) {
 		switch {
 		case route == 0:
@@ -462,6 +509,9 @@ func VerifSysMalformed() {
 		vstub.Assert(sysHolds(bA, first), "C12 an honest message in the same burst as a malformed one is still handled")
 	}
 	vstub.Assert(bB.OpLog().Len() == 0, "C12/C04 a database never merges entries written for another database, whatever the message says")
+	if idleStrict {
+		vstub.Assert(bB.ReplicationStatus().GetProgress() == 0 && bB.ReplicationStatus().GetMax() == 0, "C09 an idle database's replication status is unaffected by traffic delivered to another database")
+	}
 	// the only entry that may legitimately appear in A is the valid head `first`
 	// (a well-formed relay of it is honest traffic); nothing else
 	for _, e := range bA.OpLog().Values().Slice() {
